@@ -63,6 +63,14 @@ func c11Globals(r *rand.Rand) []scen.GlobalRule {
 			out = append(out, scen.GlobalRule{Kind: "threshold", Name: fmt.Sprintf("thr-%d", i), Patterns: p, Threshold: 1 + r.IntN(3)})
 		}
 	}
+	// a third of the rule sets have rules declared by a controller's root
+	// (alone, or next to the repository's own global rules)
+	if r.IntN(3) == 0 {
+		out[r.IntN(len(out))].Controller = true
+		if len(out) > 1 && r.IntN(2) == 0 {
+			out[0].Controller, out[1].Controller = true, true
+		}
+	}
 	return out
 }
 
@@ -130,6 +138,20 @@ type c11Obs struct {
 func c11Judge(c *fw.Ctx, h *scen.History, g []scen.GlobalRule, gitBudget *int, fidelity bool) {
 	rsl.VerifResetCache()
 	hg := withGlobals(h, g)
+	nc := 0
+	for _, gr := range g {
+		if gr.Controller {
+			nc++
+		}
+	}
+	switch {
+	case nc == 0:
+		c.Count("rules_declared_by:own_root_only", 1)
+	case nc == len(g):
+		c.Count("rules_declared_by:controller_only", 1)
+	default:
+		c.Count("rules_declared_by:own_root_and_controller", 1)
+	}
 	bP, bG := scen.NewMem(), scen.NewMem()
 	builtP, _ := h.Build(bP)
 	builtG, _ := hg.Build(bG)
